@@ -62,14 +62,16 @@ var (
 	gbox  = &lang.RecDecl{Name: "GBox", TParams: []string{"T"}, Fields: []lang.Field{{Name: "BV", T: tv("T")}, {Name: "BN", T: lang.TInt}}}
 	uniQ  = &lang.UnionDecl{Name: "UniQ", Cases: []lang.UCase{{Name: "QA", Payload: lang.TInt}, {Name: "QB", Payload: lang.TString}, {Name: "QC"}}}
 	optG  = &lang.UnionDecl{Name: "OptG", TParams: []string{"T"}, Cases: []lang.UCase{{Name: "GSome", Payload: tv("T")}, {Name: "GNone"}}}
+	recH = &lang.RecDecl{Name: "RecH", Fields: []lang.Field{{Name: "HP", T: lang.TTuple(lang.TInt, lang.TString)}, {Name: "HS", T: lang.TSlice(lang.TInt)},
+		{Name: "HN", T: lang.TInt}, {Name: "HT", T: lang.TString}}}
 	decls = []*lang.TopItem{
-		{Types: []*lang.TypeDecl{{Rec: recP}}}, {Types: []*lang.TypeDecl{{Rec: gbox}}},
+		{Types: []*lang.TypeDecl{{Rec: recP}}}, {Types: []*lang.TypeDecl{{Rec: gbox}}}, {Types: []*lang.TypeDecl{{Rec: recH}}},
 		{Types: []*lang.TypeDecl{{Union: uniQ}}}, {Types: []*lang.TypeDecl{{Union: optG}}},
 	}
 )
 
 func newInferer(user map[string]*Scheme) *inferer {
-	in := &inferer{funcs: map[string]*Scheme{}, recs: map[string]*lang.RecDecl{"RecP": recP, "GBox": gbox},
+	in := &inferer{funcs: map[string]*Scheme{}, recs: map[string]*lang.RecDecl{"RecP": recP, "GBox": gbox, "RecH": recH},
 		unions: map[string]*lang.UnionDecl{"UniQ": uniQ, "OptG": optG}, ctors: map[string]*lang.UnionDecl{}}
 	for k, v := range libFns {
 		in.funcs[k] = v
@@ -725,6 +727,150 @@ func genStagedFunc(rt *rapid.T, ctr *int, labels map[string]bool) (*lang.FuncDec
 	return f, u
 }
 
+// readers of RecH with a known signature: calling one determines its argument
+func recHReaders() ([]*lang.FuncDecl, []*userFn) {
+	H := lang.TRec("RecH")
+	rd := func(name, field string, t *lang.Type) *lang.FuncDecl {
+		return &lang.FuncDecl{Name: name, Params: []lang.Param{{Name: "h", T: H, Annot: true}}, Ret: t,
+			Body: lang.Blk(&lang.Expr{K: "field", Name: field, T: t, Args: []*lang.Expr{lang.Var("h", H)}})}
+	}
+	fs := []*lang.FuncDecl{rd("readN", "HN", lang.TInt), rd("readT", "HT", lang.TString)}
+	var us []*userFn
+	for _, f := range fs {
+		us = append(us, &userFn{name: f.Name, params: []*lang.Type{H}, ret: f.Ret})
+	}
+	return fs, us
+}
+
+// genFieldFunc generates the "fields of a parameter determined earlier" family: a record parameter that
+// is usually not annotated gets its type from one statement (a call of a reader with a known signature,
+// a comparison with a literal or with an annotated parameter, a slice literal shared with a literal);
+// later lets read its fields without adding any relation of their own (let xs = p.HS, let (a, b) = p.HP)
+// and the values read are used in ways that need their type (arithmetic, destructuring, slice.Map with
+// an un-annotated function parameter).
+func genFieldFunc(rt *rapid.T, ctr *int, labels map[string]bool) (*lang.FuncDecl, *userFn) {
+	g := &fgen{rt: rt, ctr: ctr, labels: labels}
+	I, S, B := lang.TInt, lang.TString, lang.TBool
+	H := lang.TRec("RecH")
+	f := &lang.FuncDecl{Name: g.fresh("fn")}
+	pname := g.fresh("p")
+	annot := g.n(5, "fieldAnnot") == 0
+	f.Params = append(f.Params, lang.Param{Name: pname, T: H, Annot: annot})
+	p := &gvar{name: pname, t: H, known: annot}
+	g.vars = append(g.vars, p)
+	// an un-annotated function parameter handed to slice.Map over a field
+	var fp *gvar
+	if g.n(1, "fieldFnParam") == 0 {
+		out := []*lang.Type{I, S, B}[g.n(2, "fieldFnOut")]
+		ft := fn(ts(I), out)
+		n := g.fresh("p")
+		fa := g.n(3, "fieldFnAnnot") == 0
+		prm := lang.Param{Name: n, T: ft, Annot: fa}
+		if g.n(1, "fnParamFirst") == 0 {
+			f.Params = append([]lang.Param{prm}, f.Params...)
+		} else {
+			f.Params = append(f.Params, prm)
+		}
+		fp = &gvar{name: n, t: ft, known: fa, fn: true}
+	}
+	hlit := func() *lang.Expr {
+		return &lang.Expr{K: "reclit", Name: "RecH", T: H, Fields: []lang.FieldInit{
+			{Name: "HP", E: &lang.Expr{K: "tuple", T: lang.TTuple(I, S), Args: []*lang.Expr{lang.Int(1), lang.Str("a")}}},
+			{Name: "HS", E: &lang.Expr{K: "slice", T: sl(I), Args: []*lang.Expr{lang.Int(2)}}},
+			{Name: "HN", E: lang.Int(int64(g.n(9, "hn")))}, {Name: "HT", E: lang.Str("t")}}}
+	}
+	// the statement that determines p (always first: a field can only be read from a known record)
+	switch g.n(3, "determiner") {
+	case 0:
+		g.bind(lang.Call("readN", I, g.use(p)), I, true)
+	case 1:
+		g.bind(lang.Call("readT", S, g.use(p)), S, true)
+	case 2:
+		g.bind(lang.Bin("=", B, g.use(p), hlit()), B, true)
+	default:
+		g.bind(&lang.Expr{K: "slice", T: sl(H), Args: []*lang.Expr{g.use(p), hlit()}}, sl(H), true)
+	}
+	fld := func(name string, t *lang.Type) *lang.Expr {
+		return &lang.Expr{K: "field", Name: name, T: t, Args: []*lang.Expr{g.use(p)}}
+	}
+	nst := 1 + g.n(4, "nFieldStages")
+	for i := 0; i < nst; i++ {
+		switch g.n(6, "fieldStage") {
+		case 0: // let (a, b) = p.HP
+			n1, n2 := g.fresh("d"), g.fresh("d")
+			g.stmts = append(g.stmts, &lang.Stmt{K: "letd", Names: []string{n1, n2}, E: fld("HP", lang.TTuple(I, S))})
+			a, b := &gvar{name: n1, t: I, known: true}, &gvar{name: n2, t: S, known: true}
+			g.vars = append(g.vars, a, b)
+			g.bind(lang.Bin("+", I, g.use(a), lang.Int(1)), I, true)
+			g.bind(lang.Bin("+", S, g.use(b), lang.Str("s")), S, true)
+			labels["destructuring of a field read"] = true
+		case 1: // let t = p.HP; then destructured or projected
+			t := g.bind(fld("HP", lang.TTuple(I, S)), lang.TTuple(I, S), true)
+			if g.n(1, "tupleVia") == 0 {
+				n1, n2 := g.fresh("d"), g.fresh("d")
+				g.stmts = append(g.stmts, &lang.Stmt{K: "letd", Names: []string{n1, n2}, E: g.use(t)})
+				a, b := &gvar{name: n1, t: I, known: true}, &gvar{name: n2, t: S, known: true}
+				g.vars = append(g.vars, a, b)
+				g.bind(lang.Bin("+", I, g.use(a), lang.Call("strings.Length", I, g.use(b))), I, true)
+			} else {
+				g.bind(lang.Bin("+", I, lang.Call("frt.Fst", I, g.use(t)), lang.Int(1)), I, true)
+			}
+		case 2: // let xs = p.HS; slice.Map f xs with the un-annotated function parameter (or a lambda)
+			xs := g.bind(fld("HS", sl(I)), sl(I), true)
+			if fp != nil && !fp.used {
+				g.bind(lang.Call("slice.Map", sl(fp.t.Result()), g.use(fp), g.use(xs)), sl(fp.t.Result()), true)
+				labels["function parameter mapped over a field read"] = true
+			} else {
+				x := g.fresh("x")
+				g.bind(lang.Call("slice.Map", sl(I), lam([]lang.Param{{Name: x, T: I}}, lang.Bin("+", I, lang.Var(x, I), lang.Int(1)), fn(ts(I), I)), g.use(xs)), sl(I), true)
+			}
+		case 3:
+			xs := g.bind(fld("HS", sl(I)), sl(I), true)
+			g.bind(lang.Bin("+", I, lang.Call("slice.Head", I, g.use(xs)), lang.Int(1)), I, true)
+		case 4:
+			n := g.bind(fld("HN", I), I, true)
+			g.bind(lang.Bin("+", I, g.use(n), lang.Int(1)), I, true)
+		case 5:
+			g.bind(lang.Bin("+", S, fld("HT", S), lang.Str("x")), S, true)
+		default: // a pair of two field reads
+			g.bind(&lang.Expr{K: "tuple", T: lang.TTuple(I, sl(I)), Args: []*lang.Expr{fld("HN", I), fld("HS", sl(I))}}, lang.TTuple(I, sl(I)), true)
+		}
+	}
+	labels["fields read from a parameter determined by an earlier statement"] = true
+	var parts []*lang.Expr
+	for _, v := range g.vars {
+		if !v.used && (strings.HasPrefix(v.name, "v") || strings.HasPrefix(v.name, "d")) {
+			parts = append(parts, g.use(v))
+		}
+	}
+	if len(parts) == 0 {
+		parts = append(parts, lang.Int(0))
+	}
+	for len(parts) > 1 {
+		var next []*lang.Expr
+		for i := 0; i < len(parts); i += 3 {
+			grp := parts[i:min(i+3, len(parts))]
+			if len(grp) == 1 {
+				next = append(next, grp[0])
+				continue
+			}
+			var tsx []*lang.Type
+			for _, q := range grp {
+				tsx = append(tsx, q.T)
+			}
+			next = append(next, &lang.Expr{K: "tuple", T: lang.TTuple(tsx...), Args: append([]*lang.Expr{}, grp...)})
+		}
+		parts = next
+	}
+	f.Ret = parts[0].T
+	f.Body = &lang.Block{Stmts: g.stmts, Final: parts[0]}
+	u := &userFn{name: f.Name, ret: f.Ret}
+	for _, q := range f.Params {
+		u.params = append(u.params, q.T)
+	}
+	return f, u
+}
+
 func seqN(n int) []int {
 	out := make([]int, n)
 	for i := range out {
@@ -969,12 +1115,18 @@ func genCase(rt *rapid.T) (Case, map[string]bool, int, error) {
 	ctr := 0
 	var funcs []*lang.FuncDecl
 	var user []*userFn
+	{
+		fs, us := recHReaders()
+		funcs, user = append(funcs, fs...), append(user, us...)
+	}
 	nf := 3 + rapid.IntRange(0, 6).Draw(rt, "nfuncs")
 	for i := 0; i < nf; i++ {
 		var f *lang.FuncDecl
 		var u *userFn
-		if rapid.IntRange(0, 2).Draw(rt, "staged") == 0 {
+		if k := rapid.IntRange(0, 3).Draw(rt, "staged"); k == 0 {
 			f, u = genStagedFunc(rt, &ctr, labels)
+		} else if k == 1 {
+			f, u = genFieldFunc(rt, &ctr, labels)
 		} else {
 			f, u = genFunc(rt, &ctr, user, labels)
 		}
